@@ -1,4 +1,4 @@
-\* C11 quick 1: identity keys only: forests <= 5 positions over {a,b}, <= 2 identity keys (delete / leaf / tree / existing subtree)
+\* C11 quick 5: inputs with SHARING (one node object at several positions): forests <= 5 positions over {a,b}, <= 2 identity keys; an identity key is consumed by its first occurrence in pre-order
 INIT GInit
 NEXT GNext
 CONSTANTS
@@ -6,7 +6,7 @@ CONSTANTS
   MaxNodes = 5
   MaxDepth = 3
   MaxTop = 2
-  ShareOn = FALSE
+  ShareOn = TRUE
   MaxIdKeys = 2
   MaxStKeys = 0
   Decls <- DeclsNone
@@ -14,3 +14,4 @@ INVARIANT EmptyIsIdentity
 INVARIANT ResultTokensAccounted
 INVARIANT UntouchedKept
 INVARIANT ConsumingAgreesOnTrees
+INVARIANT OneOccurrencePerKey
